@@ -148,6 +148,8 @@ func checkC18(r *core.Run) {
 		}
 	})
 	r.Set("layer_class_strings", fmt.Sprintf("%d symbols, length<=%d (%d) x 3 prefixes x {,+LF}", len(alpha), ln, st2.States))
+	nl := enum.Long([]string{"a", "0", "-", "\u00e9", "\xff"}, []string{"", " ", "\n", "+1", "[", "\x00", "b\n", "\u0661", "x y"}, 300, func(v string) { doPrefix(0, v); doPrefix(4, v) })
+	r.Set("layer_long", fmt.Sprintf("5 padding units x 9 cores x every padding length 0..300 x 3 placements x 2 prefixes: %d", nl*2))
 	r.Set("evaluations", evals)
 	r.Set("distinct_nontrivial", accepted)
 	r.Set("rejected_by_panic", rejected)
